@@ -22,6 +22,8 @@ MAPS = {
     'C16': r'^(shown|rec)\.time$|^sep\.gap$|^shape\.(want\.sep|missing\.sep|extra\.sep|want\.msg\.got\.sep)|^(shown)\.life$',
     # decoding (argument kinds and values, names, direction)
     'C01': r'^(rec|shown)\.(arg\.(kind|value)|nargs|name|dir|target\.(id|type))$',
+    # labels unambiguous and usable as matchers
+    'C14': r'^(shown|stopped)\.(target|arg\.obj|dest)\.gen$|^notice(\.closed)?$|^conns\.name$|^counts$|^none\.n$|^shape\.|^shown\.(name|dir|nargs|target\.id|conn)$',
     # breakpoints
     'C10': r'^(shape\.(want|missing|extra)\.stopped|stopped\.)',
 }
